@@ -5,6 +5,7 @@
 import EG.Lemmas.AdaptersCropIndex
 import EG.Model.Adapters
 namespace EG
+open Tgt
 
 /-! ### Point-wise meaning of a call -/
 
